@@ -107,6 +107,7 @@ func Build(s Spec, mons ...vnet.Monitor) *Built {
 	adv := false
 	rejecting := false
 	watchRejects := false
+	watchFlips := false
 	initTx := 0
 	switch s.Profile {
 	case "sync-perm":
@@ -149,6 +150,7 @@ func Build(s Spec, mons ...vnet.Monitor) *Built {
 		cfg = baseConfig(s, r, Opt{Ns: []int{1, 2, 3, 4, 4, 5, 6, 7}, MinH: 4, MaxH: 6, Dyn: 2})
 		if r.Intn(5) == 0 {
 			cfg.MaxTPB = 0 // the "extension off" half
+			cfg.TrySubscribeAlone = true
 		}
 		cfg.K.Sync = true
 		cfg.K.PDup = 0.05
@@ -168,12 +170,12 @@ func Build(s Spec, mons ...vnet.Monitor) *Built {
 	case "async-benign":
 		cfg = baseConfig(s, r, Opt{Dyn: 1})
 		cfg.K = vnet.Knobs{PDrop: 0.02, PDup: 0.08, PEarlyTimer: 0.01, PStaleTimer: 0.01, PAdvance: 0.02,
-			PDelayReset: 0.5, PNewTx: 0.02, PTxMissing: 0.2, PSupply: 0.15, PUnasked: 0.003, PSyncLedger: 0.002, PNotify: 0.05, SlowNode: -1, ResetDelayNode: -1}
+			PDelayReset: 0.5, PTimeoutDecided: 0.05, PNewTx: 0.02, PTxMissing: 0.2, PSupply: 0.15, PUnasked: 0.003, PSyncLedger: 0.002, PNotify: 0.05, SlowNode: -1, ResetDelayNode: -1}
 		initTx = r.Intn(8)
 	case "byz":
 		cfg = baseConfig(s, r, Opt{Ns: []int{4, 4, 4, 5, 6, 7, 7, 10}})
 		cfg.K = vnet.Knobs{PDrop: 0.01, PDup: 0.05, PEarlyTimer: 0.01, PStaleTimer: 0.002, PAdvance: 0.02,
-			PDelayReset: 0.3, PNewTx: 0.02, PTxMissing: 0.1, PSupply: 0.15, PSyncLedger: 0.002, PAdv: 0.12, SlowNode: -1, ResetDelayNode: -1}
+			PDelayReset: 0.3, PTimeoutDecided: 0.03, PNewTx: 0.02, PTxMissing: 0.1, PSupply: 0.15, PSyncLedger: 0.002, PAdv: 0.12, SlowNode: -1, ResetDelayNode: -1}
 		adv = true
 		initTx = r.Intn(8)
 	case "missing-tx":
@@ -187,7 +189,7 @@ func Build(s Spec, mons ...vnet.Monitor) *Built {
 		// validator set size / membership / order / own index change between heights; all honest
 		cfg = baseConfig(s, r, Opt{Ns: []int{4, 5, 6, 7}, MinH: 3, MaxH: 5})
 		cfg.Watchers = 1 + r.Intn(3)
-		cfg.K = vnet.Knobs{PDrop: 0.01, PDup: 0.08, PEarlyTimer: 0.004, PStaleTimer: 0.01, PAdvance: 0.01, PDelayReset: 0.6,
+		cfg.K = vnet.Knobs{PDrop: 0.01, PDup: 0.08, PEarlyTimer: 0.004, PStaleTimer: 0.01, PAdvance: 0.01, PDelayReset: 0.6, PTimeoutDecided: 0.05,
 			PNewTx: 0.02, PTxMissing: 0.1, PSupply: 0.15, PSyncLedger: 0.01, SlowNode: -1, ResetDelayNode: -1}
 		total := cfg.N + cfg.Watchers
 		vseed := s.Seed
@@ -216,6 +218,11 @@ func Build(s Spec, mons ...vnet.Monitor) *Built {
 			cfg.WatchFlag[r.Intn(cfg.N)] = true
 		}
 		watchRejects = r.Intn(2) == 0
+		if r.Intn(2) == 0 {
+			cfg.K.PTxMissing = 0.4 // proposals with transactions the watch-only node has to wait for
+			cfg.TxPerBlock = 1 + r.Intn(4)
+		}
+		watchFlips = r.Intn(3) == 0
 		if r.Intn(2) == 0 {
 			cfg.LatMin, cfg.LatMax = cfg.TPB/100, cfg.TPB/100
 		}
@@ -327,6 +334,15 @@ func Build(s Spec, mons ...vnet.Monitor) *Built {
 	for i := 0; i < initTx; i++ {
 		c.AddTx(false, cfg.K.PTxMissing)
 	}
+	if watchFlips {
+		// the watch-only flag of one more validator is switched on and off in the middle of rounds
+		flip := c.Nodes[r.Intn(cfg.N)]
+		hooks.BeforeStep = func(c *vnet.Cluster) {
+			if c.Rng.Intn(25) == 0 {
+				flip.Watch = !flip.Watch
+			}
+		}
+	}
 	if watchRejects {
 		// the watch-only node's own verification callbacks reject some blocks / some senders
 		for _, n := range c.Nodes {
@@ -340,6 +356,15 @@ func Build(s Spec, mons ...vnet.Monitor) *Built {
 			}
 			if r.Intn(2) == 0 {
 				n.RejectFrom[uint16(r.Intn(cfg.N))] = true
+			}
+		}
+	}
+	if cfg.AMEV >= 0 && (s.Profile == "byz" || s.Profile == "async-benign" || s.Profile == "missing-tx") && r.Intn(2) == 0 {
+		// failing pre-block / block callbacks (allowed to fail under anti-MEV: the node waits for more (pre)commits)
+		for _, n := range c.Nodes {
+			if r.Intn(3) == 0 {
+				n.FailPreBlock = r.Intn(3)
+				n.FailBlock = r.Intn(3)
 			}
 		}
 	}
